@@ -290,3 +290,52 @@ Proof.
   - destruct (parse_version rv) as [[[] n]|]; try apply H1.
     destruct (rm <? msize); [destruct (rm <=? largestFixedSize)|]; apply H1.
 Qed.
+
+(** ** sessions: the state after any history is that of the last accepted Tversion *)
+
+Fixpoint last_accepted (st : cstate) (reqs : list (N * string)) : cstate :=
+  match reqs with
+  | [] => st
+  | q :: rest =>
+      match snd (tversion_handle (fst q) (snd q)) with
+      | Some (m, v) => last_accepted {| cs_msize := m; cs_version := v |} rest
+      | None => last_accepted st rest
+      end
+  end.
+
+Lemma session_run_spec st reqs :
+  session_run st reqs = (last_accepted st reqs, map (fun q => fst (tversion_handle (fst q) (snd q))) reqs).
+Proof.
+  revert st. induction reqs as [|q rest IH]; intros st; cbn [session_run last_accepted map]; [reflexivity|].
+  unfold session_step. destruct (tversion_handle (fst q) (snd q)) as [r [[m v]|]]; cbn [fst snd]; now rewrite IH.
+Qed.
+
+(** after any session the stored msize is 0 (nothing accepted yet) or what the LAST accepted
+    Rversion announced, and the stored version is the one that reply spells *)
+Lemma session_state_announced st reqs :
+  let '(st', replies) := session_run st reqs in
+  st' = st \/
+  exists m v, In (m, v) replies /\ cs_msize st' = m /\ m <> 0 /\
+              parse_version v = Some (V9P2000L, cs_version st') /\ cs_version st' <= p9_highestSupportedVersion.
+Proof.
+  revert st. induction reqs as [|q rest IH]; intros st; cbn [session_run]; [now left|].
+  unfold session_step. destruct (tversion_handle (fst q) (snd q)) as [[m v] stt] eqn:E.
+  destruct stt as [[m' v']|].
+  - specialize (IH {| cs_msize := m'; cs_version := v' |}).
+    destruct (session_run _ rest) as [st2 rs]. destruct IH as [->|(m2 & v2 & Hin & ? & ? & ? & ?)].
+    + right. destruct (tversion_reply_parses _ _ _ _ _ E) as [(? & ? & Habs)|(n & Hs & Hp & Hn & Hm & Hm0)]; [discriminate|].
+      injection Hs as -> ->. exists m, v. cbn. repeat split; auto.
+    + right. exists m2, v2. cbn. repeat split; auto.
+  - specialize (IH st). destruct (session_run st rest) as [st2 rs]. destruct IH as [->|(m2 & v2 & Hin & ? & ? & ? & ?)]; [now left|].
+    right. exists m2, v2. cbn. repeat split; auto.
+Qed.
+
+Lemma session_reply_count st reqs : List.length (snd (session_run st reqs)) = List.length reqs.
+Proof. rewrite session_run_spec. cbn. now rewrite map_length. Qed.
+
+(** with_message_size: the only sizes a client can start from exceed every fixed part *)
+Lemma with_message_size_large m m' : with_message_size m = Some m' -> largestFixedSize < m'.
+Proof.
+  unfold with_message_size. destruct (N.eqb_spec m 0); [intros [= <-]; reflexivity|].
+  destruct (N.leb_spec m largestFixedSize); [discriminate|]. now intros [= <-].
+Qed.
